@@ -355,17 +355,17 @@ func (s *SwapService) OnTxConfirmed(swapId string, txHex string, gotErr error) e
 
 	// First check if we got an error!
 	if gotErr != nil {
-		swap.Data.LastErr = err
-		log.Infof("[%s]: got an error from the txwatcher, cancel swap: %v", swapId, err)
-		done, _ := swap.SendEvent(Event_ActionFailed, nil)
+		log.Infof("[%s]: got an error from the txwatcher, cancel swap: %v", swapId, gotErr)
+		// The swap data must only be touched under the swap's mutex, i.e. via
+		// an event context.
+		done, _ := swap.SendEvent(Event_ActionFailed, &SwapErrorContext{Err: gotErr})
 		if done {
 			s.RemoveActiveSwap(swap.SwapId.String())
 		}
+		return nil
 	}
 
-	// todo move to eventctx
-	swap.Data.OpeningTxHex = txHex
-	done, err := swap.SendEvent(Event_OnTxConfirmed, nil)
+	done, err := swap.SendEvent(Event_OnTxConfirmed, &txConfirmedContext{txHex: txHex})
 	if err == ErrEventRejected {
 		return nil
 	} else if err != nil {
@@ -374,6 +374,21 @@ func (s *SwapService) OnTxConfirmed(swapId string, txHex string, gotErr error) e
 	if done {
 		s.RemoveActiveSwap(swap.SwapId.String())
 	}
+	return nil
+}
+
+// txConfirmedContext carries the confirmed opening transaction into the swap
+// data under the swap's mutex.
+type txConfirmedContext struct {
+	txHex string
+}
+
+func (c *txConfirmedContext) ApplyToSwapData(data *SwapData) error {
+	data.OpeningTxHex = c.txHex
+	return nil
+}
+
+func (c *txConfirmedContext) Validate(data *SwapData) error {
 	return nil
 }
 
@@ -1077,11 +1092,6 @@ func (s *SwapService) createTimeoutCallback(swapId string) func() {
 		if err != nil {
 			log.Debugf("[SwapService] timeout callback: %v", err)
 			return
-		}
-
-		// Reset cancel func
-		if swap != nil && swap.Data != nil {
-			swap.Data.toCancel = nil
 		}
 
 		done, err := swap.SendEvent(Event_OnTimeout, nil)
